@@ -196,10 +196,9 @@ theorem execOps_fits {ops : List Op} {m : Mem} (h : ∀ op ∈ ops, op.fitsIn m.
       rw [Op.exec_length hop]
       exact h o (List.mem_cons_of_mem _ ho)
     | error e =>
-      simp only [ne_eq, Except.error.injEq]
-      intro he
-      subst he
-      exact Op.exec_fits (h op List.mem_cons_self) hop
+      have := Op.exec_fits (h op List.mem_cons_self)
+      rw [hop] at this
+      exact this
 
 /-! ### `convert` is the execution of its plan -/
 
@@ -298,40 +297,1019 @@ theorem tdiv_nonpos_of_nonpos {a b : Int} (ha : a ≤ 0) (hb : 0 < b) : a.tdiv b
   rw [Int.neg_tdiv] at h1
   omega
 
+theorem addVarsize_key {o isz n : Nat} {size : Int} (ho : o < 2^63)
+    (hsz : wrap64 ((o : Int) + wrap64 ((isz : Int) * (n : Int))) = size)
+    (hdiv : ¬ (isz ≠ 0 ∧ (size - (o : Int)).tdiv (isz : Int) ≠ (n : Int))) :
+    (o : Int) + (isz : Int) * (n : Int) ≤ size := by
+  rcases Nat.eq_zero_or_pos isz with hz | hz
+  · subst hz
+    simp only [Int.natCast_zero, Int.zero_mul] at hsz ⊢
+    unfold wrap64 at hsz
+    omega
+  · have hdiv' : (size - (o : Int)).tdiv (isz : Int) = (n : Int) := by
+      by_cases hq : (size - (o : Int)).tdiv (isz : Int) = (n : Int)
+      · exact hq
+      · exact absurd ⟨by omega, hq⟩ hdiv
+    rcases Nat.eq_zero_or_pos n with hn | hn
+    · subst hn
+      simp only [Int.natCast_zero, Int.mul_zero] at hsz ⊢
+      unfold wrap64 at hsz
+      omega
+    · have hd : 0 < size - (o : Int) := by
+        by_cases h1 : 0 < size - (o:Int)
+        · exact h1
+        · have := tdiv_nonpos_of_nonpos (a := size - (o:Int)) (b := (isz : Int)) (by omega) (by omega)
+          omega
+      have := Int.mul_tdiv_self_le (x := size - (o : Int)) (k := (isz : Int)) (by omega)
+      rw [hdiv'] at this
+      omega
+
 theorem addVarsize_sound {o isz n cur r : Nat} (ho : o < 2^63)
     (h : addVarsize o isz n cur = .ok r) : cur ≤ r ∧ o + isz * n ≤ r := by
   unfold addVarsize at h
   simp only at h
+  generalize hsz : wrap64 ((o : Int) + wrap64 ((isz : Int) * (n : Int))) = size at h
   split at h
   · cases h
-  · rename_i hneg
+  · split at h
+    · cases h
+    · rename_i hneg hdiv
+      have hr := Except.ok.inj h
+      have key := addVarsize_key ho hsz hdiv
+      have key2 : o + isz * n ≤ size.toNat := by
+        have : ((o + isz * n : Nat) : Int) ≤ size := by push_cast; exact key
+        omega
+      rw [← hr]
+      split <;> omega
+
+/-! ### bounds on the stores of a plan -/
+
+/-- Every operation of the list stays inside a block of `n` bytes. -/
+def AllFit (n : Nat) (ops : List Op) : Prop := ∀ op ∈ ops, op.fitsIn n = true
+
+@[simp] theorem allFit_nil (n : Nat) : AllFit n [] := by intro op h; cases h
+@[simp] theorem allFit_single (n : Nat) (o : Op) : AllFit n [o] ↔ o.fitsIn n = true := by
+  simp [AllFit]
+theorem allFit_append (n : Nat) (a b : List Op) : AllFit n (a ++ b) ↔ AllFit n a ∧ AllFit n b := by
+  simp only [AllFit, List.mem_append]
+  constructor
+  · intro h; exact ⟨fun o ho => h o (Or.inl ho), fun o ho => h o (Or.inr ho)⟩
+  · rintro ⟨h1, h2⟩ o (ho | ho)
+    · exact h1 o ho
+    · exact h2 o ho
+theorem allFit_mono {a b : Nat} (hab : a ≤ b) {ops : List Op} (h : AllFit a ops) : AllFit b ops :=
+  fun o ho => Op.fitsIn_mono hab (h o ho)
+
+@[simp] theorem fitsIn_fail (n : Nat) (e : Err) : (Op.fail e).fitsIn n = (e != .oob) := rfl
+
+theorem primOp_fits (off : Nat) (p : Prim) (init : Init) (n : Nat) (h : off + p.size ≤ n) :
+    (primOp off p init).fitsIn n = true := by
+  unfold primOp
+  split <;> (try split) <;> (try split) <;> (try split) <;>
+    simp_all [Op.fitsIn, leBytes_length, Prim.size]
+
+theorem bitfieldOp_fits (off : Nat) (p : Prim) (shift bsz : Nat) (init : Init) (n : Nat)
+    (h : off + p.size ≤ n) : (bitfieldOp off p shift bsz init).fitsIn n = true := by
+  unfold bitfieldOp
+  cases p with
+  | int s sg =>
+    simp only
+    split
+    · exact primOp_fits off _ init n h
+    · (repeat' split) <;> first | rfl | simpa [Op.fitsIn, Prim.size] using h
+  | bool =>
+    simp only
+    split
+    · exact primOp_fits off _ init n h
+    · (repeat' split) <;> first | rfl | simpa [Op.fitsIn, Prim.size] using h
+  | char => rfl
+  | ptr => rfl
+
+/-! ### facts about field lists -/
+
+theorem skipIgnored_induct (Q : Fields → Prop) (hstep : ∀ i t r, Q (.cons i t r) → Q r) :
+    ∀ cf : Fields, Q cf → Q cf.skipIgnored
+  | .nil, h => h
+  | .cons i t r, h => by
+    unfold Fields.skipIgnored
+    split
+    · exact skipIgnored_induct Q hstep r (hstep i t r h)
+    · exact h
+
+theorem find_induct (Q : Fields → Prop) (hstep : ∀ i t r, Q (.cons i t r) → Q r) (k : Nat) :
+    ∀ (fs : Fields) (info : FieldInfo) (ty : Ty), Q fs → fs.find k = some (info, ty) →
+      ∃ rest, Q (.cons info ty rest)
+  | .nil, _, _, _, h => by cases h
+  | .cons i t r, info, ty, hq, h => by
+    unfold Fields.find at h
+    split at h
+    · cases h; exact ⟨r, hq⟩
+    · exact find_induct Q hstep k r info ty (hstep i t r hq) h
+
+/-- What the proofs need of a (suffix of a) field list of an aggregate of `size` bytes. -/
+def FOK (size : Nat) (cf : Fields) : Prop :=
+  cf.wf size = true ∧ cf.noVarItems = true ∧ size < 2^63
+
+theorem FOK.tail {size : Nat} {i : FieldInfo} {t : Ty} {r : Fields} (h : FOK size (.cons i t r)) :
+    FOK size r := by
+  obtain ⟨h1, h2, h3⟩ := h
+  simp only [Fields.wf, Fields.noVarItems, Bool.and_eq_true] at h1 h2
+  exact ⟨h1.1.2, h2.2, h3⟩
+
+theorem FOK.head {size : Nat} {i : FieldInfo} {t : Ty} {r : Fields} (h : FOK size (.cons i t r)) :
+    t.wf = true ∧ t.noVarItems = true := by
+  obtain ⟨h1, h2, _⟩ := h
+  simp only [Fields.wf, Fields.noVarItems, Bool.and_eq_true] at h1 h2
+  exact ⟨h1.1.1, h2.1⟩
+
+theorem FOK.fixed_bound {size : Nat} {i : FieldInfo} {t : Ty} {r : Fields} (h : FOK size (.cons i t r))
+    (hno : t.isOpenArr = false) : ∃ sz, t.size? = some sz ∧ i.off + sz ≤ size := by
+  obtain ⟨h1, _, _⟩ := h
+  simp only [Fields.wf, Bool.and_eq_true] at h1
+  have h3 := h1.2
+  cases t with
+  | prim p => simp only [decide_eq_true_eq, Bool.and_eq_true] at h3; exact ⟨_, rfl, h3.2⟩
+  | arr item isz len =>
+    cases len with
+    | none => simp [Ty.isOpenArr] at hno
+    | some l => simp only [decide_eq_true_eq, Bool.and_eq_true] at h3; exact ⟨_, rfl, h3.2⟩
+  | agg sz fs => simp only [decide_eq_true_eq, Bool.and_eq_true] at h3; exact ⟨_, rfl, h3.2⟩
+
+theorem FOK.off_le {size : Nat} {i : FieldInfo} {t : Ty} {r : Fields} (h : FOK size (.cons i t r)) :
+    i.off ≤ size := by
+  obtain ⟨h1, _, _⟩ := h
+  simp only [Fields.wf, Bool.and_eq_true] at h1
+  have h3 := h1.2
+  cases t with
+  | prim p => simp only [decide_eq_true_eq, Bool.and_eq_true] at h3; omega
+  | arr item isz len =>
+    cases len with
+    | none => simp only [decide_eq_true_eq, Bool.and_eq_true] at h3; omega
+    | some l => simp only [decide_eq_true_eq, Bool.and_eq_true] at h3; omega
+  | agg sz fs => simp only [decide_eq_true_eq, Bool.and_eq_true] at h3; omega
+
+theorem anyVar_cons_false {i : FieldInfo} {t : Ty} {r : Fields} (h : (Fields.cons i t r).anyVar = false) :
+    t.isOpenArr = false ∧ t.withVar = false ∧ r.anyVar = false := by
+  simp only [Fields.anyVar, Bool.or_eq_false_iff] at h
+  exact ⟨h.1.1, h.1.2, h.2⟩
+
+/-! ### a conversion into a fixed-size type stays inside the type -/
+
+theorem arr_facts {item : Ty} {isz : Nat} {len : Option Nat}
+    (hwf : (Ty.arr item isz len).wf = true) (hnv : (Ty.arr item isz len).noVarItems = true) :
+    item.wf = true ∧ item.noVarItems = true ∧ item.withVar = false ∧ item.size? = some isz := by
+  simp only [Ty.wf, Ty.noVarItems, Bool.and_eq_true, beq_iff_eq, Bool.not_eq_true'] at hwf hnv
+  exact ⟨hwf.1, hnv.2, hnv.1, hwf.2⟩
+
+theorem byteLike_size {item : Ty} {isz : Nat} (hb : item.isByteLike = true) (h : item.size? = some isz) :
+    isz = 1 := by
+  cases item with
+  | prim p =>
+    cases p with
+    | int s sg =>
+      simp only [Ty.isByteLike, beq_iff_eq] at hb
+      simp only [Ty.size?, Prim.size, Option.some.injEq] at h; omega
+    | bool => simp only [Ty.size?, Prim.size, Option.some.injEq] at h; omega
+    | char => simp only [Ty.size?, Prim.size, Option.some.injEq] at h; omega
+    | ptr => simp [Ty.isByteLike] at hb
+  | arr _ _ _ => simp [Ty.isByteLike] at hb
+  | agg _ _ => simp [Ty.isByteLike] at hb
+
+/-- The `bytes` branch of `convert_array_from_object` for an array of fixed length `l`. -/
+theorem bytes_plan_fits (n off : Nat) (item : Ty) (isz l : Nat) (b : List UInt8)
+    (h4 : item.size? = some isz) (hle : off + isz * l ≤ n) :
+    AllFit n (if item.isByteLike = true then
+        if tooMany (some l) b.length = true then [Op.fail Err.index]
+        else
+          if (item.isBool && (if some l = some b.length then b else b ++ [0]).any fun c => decide (c > 1)) = true
+          then [Op.fail Err.value]
+          else [Op.store off (if some l = some b.length then b else b ++ [0])]
+      else [Op.fail Err.type]) := by
+  have hp : ¬ (b.length > l) → (if some l = some b.length then b else b ++ [0]).length ≤ l := by
+    intro htm
+    split
+    · rename_i he; simp only [Option.some.injEq] at he; omega
+    · rename_i hne
+      simp only [Option.some.injEq] at hne
+      simp only [List.length_append, List.length_singleton]
+      omega
+  generalize (if some l = some b.length then b else b ++ [0]) = payload at hp ⊢
+  by_cases hbl : item.isByteLike = true
+  · have := byteLike_size hbl h4
+    subst this
+    simp only [hbl, if_true]
+    by_cases htm : tooMany (some l) b.length = true
+    · simp [htm]
+    · have hl := hp (by simpa [tooMany] using htm)
+      have htm' : tooMany (some l) b.length = false := by simpa using htm
+      rw [htm']
+      simp only [Bool.false_eq_true, if_false]
+      by_cases hv : (item.isBool && payload.any fun c => decide (c > 1)) = true
+      · simp [hv]
+      · rw [if_neg hv]
+        simp only [allFit_single, Op.fitsIn, decide_eq_true_eq]
+        omega
+  · simp [hbl]
+
+mutual
+theorem plan_fits_fixed (n : Nat) : ∀ (init : Init) (off : Nat) (ty : Ty) (fc : FieldCtx) (sz : Nat),
+    ty.wf = true → ty.noVarItems = true → ty.withVar = false → ty.size? = some sz → off + sz ≤ n →
+    AllFit n (plan off ty fc init)
+  | .seq items, off, ty, fc, sz, hwf, hnv, hvar, hsz, hle => by
+    cases ty with
+    | prim p =>
+      simp only [Ty.size?, Option.some.injEq] at hsz; subst hsz
+      rcases fc with _ | _ | ⟨sh, bs⟩ <;> simp only [plan, allFit_single]
+      · exact primOp_fits _ _ _ _ hle
+      · exact primOp_fits _ _ _ _ hle
+      · exact bitfieldOp_fits _ _ _ _ _ _ hle
+    | agg size fs =>
+      simp only [Ty.size?, Option.some.injEq] at hsz; subst hsz
+      simp only [Ty.wf, Ty.noVarItems, Ty.withVar, Bool.and_eq_true, decide_eq_true_eq] at hwf hnv hvar
+      rcases fc with _ | _ | ⟨sh, bs⟩ <;> simp only [plan, allFit_single, fitsIn_fail]
+      · exact planSeq_fits_fixed n items off fs size ⟨hwf.2, hnv, hwf.1⟩ hvar hle
+      · exact planSeq_fits_fixed n items off fs size ⟨hwf.2, hnv, hwf.1⟩ hvar hle
+      · decide
+    | arr item isz len =>
+      obtain ⟨h1, h2, h3, h4⟩ := arr_facts hwf hnv
+      cases len with
+      | none => simp [Ty.size?] at hsz
+      | some l =>
+        simp only [Ty.size?, Option.some.injEq] at hsz; subst hsz
+        rcases fc with _ | _ | ⟨sh, bs⟩ <;> simp only [plan, allFit_single, fitsIn_fail]
+        · split
+          · simp
+          · rename_i htm
+            simp only [tooMany, decide_eq_true_eq] at htm
+            refine planItems_fits_fixed n items off item isz h1 h2 h3 h4 ?_
+            have : items.length * isz ≤ isz * l := by
+              rw [Nat.mul_comm]; exact Nat.mul_le_mul_left _ (by omega)
+            omega
+        · split
+          · simp
+          · rename_i htm
+            simp only [tooMany, decide_eq_true_eq] at htm
+            refine planItems_fits_fixed n items off item isz h1 h2 h3 h4 ?_
+            have : items.length * isz ≤ isz * l := by
+              rw [Nat.mul_comm]; exact Nat.mul_le_mul_left _ (by omega)
+            omega
+        · decide
+  | .dict kvs, off, ty, fc, sz, hwf, hnv, hvar, hsz, hle => by
+    cases ty with
+    | prim p =>
+      simp only [Ty.size?, Option.some.injEq] at hsz; subst hsz
+      rcases fc with _ | _ | ⟨sh, bs⟩ <;> simp only [plan, allFit_single]
+      · exact primOp_fits _ _ _ _ hle
+      · exact primOp_fits _ _ _ _ hle
+      · exact bitfieldOp_fits _ _ _ _ _ _ hle
+    | agg size fs =>
+      simp only [Ty.size?, Option.some.injEq] at hsz; subst hsz
+      simp only [Ty.wf, Ty.noVarItems, Ty.withVar, Bool.and_eq_true, decide_eq_true_eq] at hwf hnv hvar
+      rcases fc with _ | _ | ⟨sh, bs⟩ <;> simp only [plan, allFit_single, fitsIn_fail]
+      · exact planDict_fits_fixed n kvs off fs size ⟨hwf.2, hnv, hwf.1⟩ hvar hle
+      · exact planDict_fits_fixed n kvs off fs size ⟨hwf.2, hnv, hwf.1⟩ hvar hle
+      · decide
+    | arr item isz len =>
+      rcases fc with _ | _ | ⟨sh, bs⟩ <;> simp only [plan, allFit_single, fitsIn_fail] <;> decide
+  | .int v, off, ty, fc, sz, hwf, hnv, hvar, hsz, hle => by
+    cases ty with
+    | prim p =>
+      simp only [Ty.size?, Option.some.injEq] at hsz; subst hsz
+      rcases fc with _ | _ | ⟨sh, bs⟩ <;> simp only [plan, allFit_single]
+      · exact primOp_fits _ _ _ _ hle
+      · exact primOp_fits _ _ _ _ hle
+      · exact bitfieldOp_fits _ _ _ _ _ _ hle
+    | agg size fs =>
+      rcases fc with _ | _ | ⟨sh, bs⟩ <;> simp only [plan, allFit_single, fitsIn_fail] <;> decide
+    | arr item isz len =>
+      cases len with
+      | none => simp [Ty.size?] at hsz
+      | some l =>
+        rcases fc with _ | _ | ⟨sh, bs⟩ <;> simp only [plan, allFit_single, fitsIn_fail] <;> decide
+  | .bytes b, off, ty, fc, sz, hwf, hnv, hvar, hsz, hle => by
+    cases ty with
+    | prim p =>
+      simp only [Ty.size?, Option.some.injEq] at hsz; subst hsz
+      rcases fc with _ | _ | ⟨sh, bs⟩ <;> simp only [plan, allFit_single]
+      · exact primOp_fits _ _ _ _ hle
+      · exact primOp_fits _ _ _ _ hle
+      · exact bitfieldOp_fits _ _ _ _ _ _ hle
+    | agg size fs =>
+      rcases fc with _ | _ | ⟨sh, bs⟩ <;> simp only [plan, allFit_single, fitsIn_fail] <;> decide
+    | arr item isz len =>
+      obtain ⟨h1, h2, h3, h4⟩ := arr_facts hwf hnv
+      cases len with
+      | none => simp [Ty.size?] at hsz
+      | some l =>
+        simp only [Ty.size?, Option.some.injEq] at hsz; subst hsz
+        have hb := bytes_plan_fits n off item isz l b h4 hle
+        rcases fc with _ | _ | ⟨sh, bs⟩ <;> simp only [plan, allFit_single, fitsIn_fail]
+        · exact hb
+        · exact hb
+        · decide
+  | .cdata same data, off, ty, fc, sz, hwf, hnv, hvar, hsz, hle => by
+    cases ty with
+    | prim p =>
+      simp only [Ty.size?, Option.some.injEq] at hsz; subst hsz
+      rcases fc with _ | _ | ⟨sh, bs⟩ <;> simp only [plan, allFit_single]
+      · exact primOp_fits _ _ _ _ hle
+      · exact primOp_fits _ _ _ _ hle
+      · exact bitfieldOp_fits _ _ _ _ _ _ hle
+    | agg size fs =>
+      simp only [Ty.size?, Option.some.injEq] at hsz; subst hsz
+      cases same <;> rcases fc with _ | _ | ⟨sh, bs⟩ <;>
+        simp only [plan, allFit_single, fitsIn_fail] <;> (try decide) <;>
+        ((repeat' split) <;> first | decide | (simp [Op.fitsIn] <;> omega))
+    | arr item isz len =>
+      cases len with
+      | none => simp [Ty.size?] at hsz
+      | some l =>
+        simp only [Ty.size?, Option.some.injEq] at hsz; subst hsz
+        cases same <;> rcases fc with _ | _ | ⟨sh, bs⟩ <;>
+          simp only [plan, allFit_single, fitsIn_fail] <;> (try decide) <;>
+          ((repeat' split) <;> first | decide | (simp [Op.fitsIn] <;> omega))
+  | .other, off, ty, fc, sz, hwf, hnv, hvar, hsz, hle => by
+    cases ty with
+    | prim p =>
+      simp only [Ty.size?, Option.some.injEq] at hsz; subst hsz
+      rcases fc with _ | _ | ⟨sh, bs⟩ <;> simp only [plan, allFit_single]
+      · exact primOp_fits _ _ _ _ hle
+      · exact primOp_fits _ _ _ _ hle
+      · exact bitfieldOp_fits _ _ _ _ _ _ hle
+    | agg size fs =>
+      rcases fc with _ | _ | ⟨sh, bs⟩ <;> simp only [plan, allFit_single, fitsIn_fail] <;> decide
+    | arr item isz len =>
+      rcases fc with _ | _ | ⟨sh, bs⟩ <;> simp only [plan, allFit_single, fitsIn_fail] <;> decide
+theorem planItems_fits_fixed (n : Nat) : ∀ (items : Inits) (off : Nat) (item : Ty) (isz : Nat),
+    item.wf = true → item.noVarItems = true → item.withVar = false → item.size? = some isz →
+    off + items.length * isz ≤ n → AllFit n (planItems off item isz items)
+  | .nil, off, item, isz, _, _, _, _, _ => by simp only [planItems, allFit_nil]
+  | .cons x xs, off, item, isz, h1, h2, h3, h4, hle => by
+    simp only [planItems, allFit_append]
+    simp only [Inits.length, Nat.add_mul, Nat.one_mul] at hle
+    exact ⟨plan_fits_fixed n x off item .plain isz h1 h2 h3 h4 (by omega),
+           planItems_fits_fixed n xs (off + isz) item isz h1 h2 h3 h4 (by omega)⟩
+theorem planSeq_fits_fixed (n : Nat) : ∀ (items : Inits) (off : Nat) (cf : Fields) (size : Nat),
+    FOK size cf → cf.anyVar = false → off + size ≤ n → AllFit n (planSeq off cf items)
+  | .nil, off, cf, size, _, _, _ => by simp only [planSeq, allFit_nil]
+  | .cons x xs, off, cf, size, hok, hvar, hle => by
+    simp only [planSeq]
+    have hq := skipIgnored_induct (fun c => FOK size c ∧ c.anyVar = false)
+      (fun i t r h => ⟨h.1.tail, (anyVar_cons_false h.2).2.2⟩) cf ⟨hok, hvar⟩
+    cases hsk : cf.skipIgnored with
+    | nil => simp
+    | cons info ty rest =>
+      rw [hsk] at hq
+      obtain ⟨hok', hvar'⟩ := hq
+      obtain ⟨hno, hwv, hrest⟩ := anyVar_cons_false hvar'
+      obtain ⟨sz, hsz, hb⟩ := hok'.fixed_bound hno
+      simp only [allFit_append]
+      exact ⟨plan_fits_fixed n x (off + info.off) ty (.field info.bits) sz hok'.head.1 hok'.head.2 hwv hsz
+               (by omega),
+             planSeq_fits_fixed n xs off rest size hok'.tail hrest hle⟩
+theorem planDict_fits_fixed (n : Nat) : ∀ (kvs : KVs) (off : Nat) (fs : Fields) (size : Nat),
+    FOK size fs → fs.anyVar = false → off + size ≤ n → AllFit n (planDict off fs kvs)
+  | .nil, off, fs, size, _, _, _ => by simp only [planDict, allFit_nil]
+  | .cons k v rest, off, fs, size, hok, hvar, hle => by
+    simp only [planDict]
+    cases hf : fs.find k with
+    | none => simp
+    | some p =>
+      obtain ⟨info, ty⟩ := p
+      obtain ⟨r, hok', hvar'⟩ := find_induct (fun c => FOK size c ∧ c.anyVar = false)
+        (fun i t r h => ⟨h.1.tail, (anyVar_cons_false h.2).2.2⟩) k fs info ty ⟨hok, hvar⟩ hf
+      obtain ⟨hno, hwv, _⟩ := anyVar_cons_false hvar'
+      obtain ⟨sz, hsz, hb⟩ := hok'.fixed_bound hno
+      simp only [allFit_append]
+      exact ⟨plan_fits_fixed n v (off + info.off) ty (.field info.bits) sz hok'.head.1 hok'.head.2 hwv hsz
+               (by omega),
+             planDict_fits_fixed n rest off fs size hok hvar hle⟩
+end
+
+/-! ### the var-size pre-pass bounds every store -/
+
+theorem addVarsize_ge_cur {o isz n cur r : Nat} (h : addVarsize o isz n cur = .ok r) : cur ≤ r := by
+  unfold addVarsize at h
+  simp only at h
+  split at h
+  · cases h
+  · split at h
+    · cases h
+    · have hr := Except.ok.inj h
+      rw [← hr]
+      split <;> omega
+
+theorem prepassField_mono {info : FieldInfo} {ty : Ty} {v : Init} {cur r : Nat}
+    (h : prepassField info ty v cur = .ok r) : cur ≤ r := by
+  unfold prepassField at h
+  split at h
+  · split at h
+    · exact addVarsize_ge_cur h
+    · cases h
+  · split at h
+    · split at h
+      · cases h; omega
+      · split at h
+        · exact addVarsize_ge_cur h
+        · cases h
+      · split at h
+        · exact addVarsize_ge_cur h
+        · cases h
+      · cases h
+    · cases h; omega
+  · cases h; omega
+
+theorem prepassSeq_mono : ∀ (items : Inits) (cf : Fields) (cur r : Nat),
+    prepassSeq cf items cur = .ok r → cur ≤ r
+  | .nil, cf, cur, r, h => by simp only [prepassSeq] at h; cases h; omega
+  | .cons x xs, cf, cur, r, h => by
+    simp only [prepassSeq] at h
     split at h
     · cases h
-    · rename_i hz
+    · split at h
+      · rename_i cur' hf
+        have := prepassField_mono hf
+        have := prepassSeq_mono xs _ _ _ h
+        omega
+      · cases h
+
+theorem prepassDict_mono : ∀ (kvs : KVs) (fs : Fields) (cur r : Nat),
+    prepassDict fs kvs cur = .ok r → cur ≤ r
+  | .nil, fs, cur, r, h => by simp only [prepassDict] at h; cases h; omega
+  | .cons k v rest, fs, cur, r, h => by
+    simp only [prepassDict] at h
+    split at h
+    · cases h
+    · split at h
+      · rename_i cur' hf
+        have := prepassField_mono hf
+        have := prepassDict_mono rest _ _ _ h
+        omega
+      · cases h
+
+/-- A field whose type is neither an open array nor a var-sized struct: the conversion stays
+inside the enclosing aggregate. -/
+theorem plan_fits_field_fixed (n : Nat) (x : Init) (off : Nat) (info : FieldInfo) (ty : Ty)
+    (rest : Fields) (size : Nat) (hok : FOK size (.cons info ty rest))
+    (hno : ty.isOpenArr = false) (hwv : ty.withVar = false) (hle : off + size ≤ n) :
+    AllFit n (plan (off + info.off) ty (.field info.bits) x) := by
+  obtain ⟨sz, hsz, hb⟩ := hok.fixed_bound hno
+  exact plan_fits_fixed n x (off + info.off) ty (.field info.bits) sz hok.head.1 hok.head.2 hwv hsz
+    (by omega)
+
+theorem agg_facts {size : Nat} {fs : Fields} (hwf : (Ty.agg size fs).wf = true)
+    (hnv : (Ty.agg size fs).noVarItems = true) : FOK size fs := by
+  simp only [Ty.wf, Ty.noVarItems, Bool.and_eq_true, decide_eq_true_eq] at hwf hnv
+  exact ⟨hwf.2, hnv, hwf.1⟩
+
+
+theorem FOK.off_lt {size : Nat} {i : FieldInfo} {t : Ty} {r : Fields} (h : FOK size (.cons i t r)) :
+    i.off < 2^63 := by
+  have := h.off_le
+  have := h.2.2
+  omega
+
+/-- An open array field initialised with `x`: the stores stay below what the pre-pass computed. -/
+theorem plan_fits_open (n : Nat) (x : Init) (off : Nat) (info : FieldInfo) (item : Ty) (isz : Nat)
+    (rest : Fields) (size cur cur' : Nat) (hok : FOK size (.cons info (.arr item isz none) rest))
+    (hp : prepassField info (.arr item isz none) x cur = .ok cur') (hle : off + cur' ≤ n) :
+    AllFit n (plan (off + info.off) (.arr item isz none) (.field info.bits) x) := by
+  obtain ⟨h1, h2, h3, h4⟩ := arr_facts hok.head.1 hok.head.2
+  have hoff := hok.off_lt
+  simp only [prepassField] at hp
+  rcases hb : info.bits with _ | ⟨sh, bs⟩
+  · cases x with
+    | seq items =>
+      simp only [newArrayLength] at hp
+      have hs := (addVarsize_sound hoff hp).2
+      simp only [plan, tooMany, Bool.false_eq_true, if_false]
+      refine planItems_fits_fixed n items (off + info.off) item isz h1 h2 h3 h4 ?_
+      rw [Nat.mul_comm]; omega
+    | bytes b =>
+      simp only [newArrayLength] at hp
+      have hs := (addVarsize_sound hoff hp).2
+      simp only [plan, tooMany, Bool.false_eq_true, if_false]
+      by_cases hbl : item.isByteLike = true
+      · have := byteLike_size hbl h4
+        subst this
+        simp only [hbl, if_true]
+        have hne : ¬ ((none : Option Nat) = some b.length) := by simp
+        rw [if_neg hne]
+        split
+        · simp
+        · simp only [allFit_single, Op.fitsIn, decide_eq_true_eq, List.length_append,
+            List.length_singleton]
+          omega
+      · simp [hbl]
+    | int v =>
+      simp only [plan]
+      cases hn : newArrayLength (.int v) with
+      | ok a => simp
+      | error e => rw [hn] at hp; cases hp
+    | dict kvs => simp [plan]
+    | cdata same data => simp [plan]
+    | other => simp [plan]
+  · cases x <;> simp [plan]
+
+def Init.isNode : Init → Bool
+  | .seq _ => true
+  | .dict _ => true
+  | _ => false
+
+/-- Initialisers without sub-initialisers (no recursion needed). -/
+theorem plan_fits_leaf (n : Nat) (x : Init) (hx : x.isNode = false) (off : Nat) (info : FieldInfo) (ty : Ty)
+    (rest : Fields) (size cur cur' : Nat)
+    (hok : FOK size (.cons info ty rest)) (hp : prepassField info ty x cur = .ok cur')
+    (hle : off + cur' ≤ n) (hsz : off + size ≤ n) :
+    AllFit n (plan (off + info.off) ty (.field info.bits) x) := by
+  cases ty with
+  | prim p => exact plan_fits_field_fixed n _ off info _ rest size hok rfl rfl hsz
+  | arr item isz len =>
+    cases len with
+    | some l => exact plan_fits_field_fixed n _ off info _ rest size hok rfl rfl hsz
+    | none => exact plan_fits_open n _ off info item isz rest size cur cur' hok hp hle
+  | agg size' fs' =>
+    by_cases hv : fs'.anyVar = true
+    · obtain ⟨sz, hsz', hb⟩ := hok.fixed_bound (t := .agg size' fs') rfl
+      simp only [Ty.size?, Option.some.injEq] at hsz'; subst hsz'
+      rcases hbits : info.bits with _ | ⟨sh, bs⟩
+      · cases x with
+        | seq items => simp [Init.isNode] at hx
+        | dict kvs => simp [Init.isNode] at hx
+        | cdata same data =>
+          cases same
+          · simp [plan]
+          · simp only [plan]
+            split
+            · simp only [allFit_single, Op.fitsIn, decide_eq_true_eq, List.length_take]
+              omega
+            · simp
+        | int v => simp [prepassField, hv] at hp
+        | bytes b => simp [prepassField, hv] at hp
+        | other => simp [prepassField, hv] at hp
+      · cases x <;> simp [plan]
+    · exact plan_fits_field_fixed n _ off info _ rest size hok rfl (by simpa [Ty.withVar] using hv) hsz
+
+mutual
+theorem plan_fits_field (n : Nat) : ∀ (x : Init) (off : Nat) (info : FieldInfo) (ty : Ty)
+    (rest : Fields) (size cur cur' : Nat),
+    FOK size (.cons info ty rest) → prepassField info ty x cur = .ok cur' → off + cur' ≤ n →
+    off + size ≤ n → AllFit n (plan (off + info.off) ty (.field info.bits) x)
+  | .seq items, off, info, ty, rest, size, cur, cur', hok, hp, hle, hsz => by
+    cases ty with
+    | prim p => exact plan_fits_field_fixed n _ off info _ rest size hok rfl rfl hsz
+    | arr item isz len =>
+      cases len with
+      | some l => exact plan_fits_field_fixed n _ off info _ rest size hok rfl rfl hsz
+      | none => exact plan_fits_open n _ off info item isz rest size cur cur' hok hp hle
+    | agg size' fs' =>
+      by_cases hv : fs'.anyVar = true
+      · obtain ⟨sz, hsz', hb⟩ := hok.fixed_bound (t := .agg size' fs') rfl
+        simp only [Ty.size?, Option.some.injEq] at hsz'; subst hsz'
+        have hok' := agg_facts hok.head.1 hok.head.2
+        simp only [prepassField, hv, if_true] at hp
+        rcases hbits : info.bits with _ | ⟨sh, bs⟩
+        · simp only [plan]
+          cases hps : prepassSeq fs' items size' with
+          | error e => rw [hps] at hp; cases hp
+          | ok sub =>
+            rw [hps] at hp
+            have hs := (addVarsize_sound hok.off_lt hp).2
+            exact planSeq_fits_var n items (off + info.off) fs' size' size' sub hok' hps
+              (by omega) (by omega)
+        · simp [plan]
+      · exact plan_fits_field_fixed n _ off info _ rest size hok rfl (by simpa [Ty.withVar] using hv) hsz
+  | .dict kvs, off, info, ty, rest, size, cur, cur', hok, hp, hle, hsz => by
+    cases ty with
+    | prim p => exact plan_fits_field_fixed n _ off info _ rest size hok rfl rfl hsz
+    | arr item isz len =>
+      cases len with
+      | some l => exact plan_fits_field_fixed n _ off info _ rest size hok rfl rfl hsz
+      | none => exact plan_fits_open n _ off info item isz rest size cur cur' hok hp hle
+    | agg size' fs' =>
+      by_cases hv : fs'.anyVar = true
+      · obtain ⟨sz, hsz', hb⟩ := hok.fixed_bound (t := .agg size' fs') rfl
+        simp only [Ty.size?, Option.some.injEq] at hsz'; subst hsz'
+        have hok' := agg_facts hok.head.1 hok.head.2
+        simp only [prepassField, hv, if_true] at hp
+        rcases hbits : info.bits with _ | ⟨sh, bs⟩
+        · simp only [plan]
+          cases hps : prepassDict fs' kvs size' with
+          | error e => rw [hps] at hp; cases hp
+          | ok sub =>
+            rw [hps] at hp
+            have hs := (addVarsize_sound hok.off_lt hp).2
+            exact planDict_fits_var n kvs (off + info.off) fs' size' size' sub hok' hps
+              (by omega) (by omega)
+        · simp [plan]
+      · exact plan_fits_field_fixed n _ off info _ rest size hok rfl (by simpa [Ty.withVar] using hv) hsz
+  | .int v, off, info, ty, rest, size, cur, cur', hok, hp, hle, hsz => by
+    exact plan_fits_leaf n _ (by simp [Init.isNode]) off info ty rest size cur cur' hok hp hle hsz
+  | .bytes b, off, info, ty, rest, size, cur, cur', hok, hp, hle, hsz => by
+    exact plan_fits_leaf n _ (by simp [Init.isNode]) off info ty rest size cur cur' hok hp hle hsz
+  | .cdata same data, off, info, ty, rest, size, cur, cur', hok, hp, hle, hsz => by
+    exact plan_fits_leaf n _ (by simp [Init.isNode]) off info ty rest size cur cur' hok hp hle hsz
+  | .other, off, info, ty, rest, size, cur, cur', hok, hp, hle, hsz => by
+    exact plan_fits_leaf n _ (by simp [Init.isNode]) off info ty rest size cur cur' hok hp hle hsz
+theorem planSeq_fits_var (n : Nat) : ∀ (items : Inits) (off : Nat) (cf : Fields) (size cur sz : Nat),
+    FOK size cf → prepassSeq cf items cur = .ok sz → off + sz ≤ n → off + size ≤ n →
+    AllFit n (planSeq off cf items)
+  | .nil, off, cf, size, cur, sz, _, _, _, _ => by simp only [planSeq, allFit_nil]
+  | .cons x xs, off, cf, size, cur, sz, hok, hp, hle, hsz => by
+    simp only [planSeq]
+    simp only [prepassSeq] at hp
+    have hq := skipIgnored_induct (fun c => FOK size c) (fun i t r h => h.tail) cf hok
+    cases hsk : cf.skipIgnored with
+    | nil => simp
+    | cons info ty rest =>
+      rw [hsk] at hq hp
+      simp only at hp
+      cases hf : prepassField info ty x cur with
+      | error e => rw [hf] at hp; cases hp
+      | ok cur' =>
+        rw [hf] at hp
+        simp only at hp
+        have hm := prepassSeq_mono xs rest cur' sz hp
+        simp only [allFit_append]
+        exact ⟨plan_fits_field n x off info ty rest size cur cur' hq hf (by omega) hsz,
+               planSeq_fits_var n xs off rest size cur' sz hq.tail hp hle hsz⟩
+theorem planDict_fits_var (n : Nat) : ∀ (kvs : KVs) (off : Nat) (fs : Fields) (size cur sz : Nat),
+    FOK size fs → prepassDict fs kvs cur = .ok sz → off + sz ≤ n → off + size ≤ n →
+    AllFit n (planDict off fs kvs)
+  | .nil, off, fs, size, cur, sz, _, _, _, _ => by simp only [planDict, allFit_nil]
+  | .cons k v rest, off, fs, size, cur, sz, hok, hp, hle, hsz => by
+    simp only [planDict]
+    simp only [prepassDict] at hp
+    cases hfi : fs.find k with
+    | none => simp
+    | some p =>
+      obtain ⟨info, ty⟩ := p
+      rw [hfi] at hp
+      simp only at hp
+      obtain ⟨r, hq⟩ := find_induct (fun c => FOK size c) (fun i t r h => h.tail) k fs info ty hok hfi
+      cases hf : prepassField info ty v cur with
+      | error e => rw [hf] at hp; cases hp
+      | ok cur' =>
+        rw [hf] at hp
+        simp only at hp
+        have hm := prepassDict_mono rest fs cur' sz hp
+        simp only [allFit_append]
+        exact ⟨plan_fits_field n v off info ty r size cur cur' hq hf (by omega) hsz,
+               planDict_fits_var n rest off fs size cur' sz hok hp hle hsz⟩
+end
+
+/-! ### errors of the pre-pass: never `oob`; `divzero` only with open arrays of zero-size items -/
+
+theorem newArrayLength_err {x : Init} {e : Err} (h : newArrayLength x = .error e) :
+    e = .overflow ∨ e = .value ∨ e = .type := by
+  cases x <;> simp only [newArrayLength] at h
+  · split at h
+    · cases h; simp
+    · split at h
+      · cases h; simp
+      · cases h
+  all_goals cases h
+  all_goals simp
+
+/-- Errors of the pre-pass: Python exceptions only, never the out-of-bounds outcome. -/
+def PreErrOk (e : Err) : Prop := e ≠ .oob
+
+theorem addVarsize_err {o isz n cur : Nat} {e : Err} (h : addVarsize o isz n cur = .error e) :
+    e = .overflow := by
+  unfold addVarsize at h
+  simp only at h
+  split at h
+  · cases h; rfl
+  · split at h
+    · cases h; rfl
+    · cases h
+
+theorem addVarsize_errOk {o isz n cur : Nat} {e : Err}
+    (h : addVarsize o isz n cur = .error e) : PreErrOk e := by
+  rw [addVarsize_err h]; exact (by decide : Err.overflow ≠ Err.oob)
+
+theorem newArrayLength_errOk {x : Init} {e : Err} (h : newArrayLength x = .error e) :
+    PreErrOk e := by
+  rcases newArrayLength_err h with h | h | h <;> subst h <;> (unfold PreErrOk; decide)
+
+theorem prepassField_errOk_leaf (x : Init) (hx : x.isNode = false) (info : FieldInfo) (ty : Ty) (cur : Nat)
+    (e : Err) (h : prepassField info ty x cur = .error e) : PreErrOk e := by
+  cases ty with
+  | prim p => simp [prepassField] at h
+  | arr item isz len =>
+    cases len with
+    | some l => simp [prepassField] at h
+    | none =>
+      simp only [prepassField] at h
+      cases hn : newArrayLength x with
+      | ok a =>
+        obtain ⟨n, b⟩ := a
+        rw [hn] at h
+        exact addVarsize_errOk h
+      | error e' =>
+        rw [hn] at h
+        cases h
+        exact newArrayLength_errOk hn
+  | agg size fs =>
+    cases x with
+    | seq items => simp [Init.isNode] at hx
+    | dict kvs => simp [Init.isNode] at hx
+    | _ =>
+      simp only [prepassField] at h
+      split at h
+      all_goals (first | (cases h; done) | (cases h; exact (by decide : Err.type ≠ Err.oob)))
+
+mutual
+theorem prepassField_errOk : ∀ (x : Init) (info : FieldInfo) (ty : Ty) (cur : Nat) (e : Err),
+    prepassField info ty x cur = .error e → PreErrOk e
+  | .seq items, info, ty, cur, e, h => by
+    cases ty with
+    | prim p => simp [prepassField] at h
+    | arr item isz len =>
+      cases len with
+      | some l => simp [prepassField] at h
+      | none =>
+        simp only [prepassField, newArrayLength] at h
+        exact addVarsize_errOk h
+    | agg size fs =>
+      simp only [prepassField] at h
+      split at h
+      · cases hps : prepassSeq fs items size with
+        | ok sub =>
+          rw [hps] at h
+          exact addVarsize_errOk h
+        | error e' =>
+          rw [hps] at h
+          cases h
+          exact prepassSeq_errOk items fs size e hps
+      · cases h
+  | .dict kvs, info, ty, cur, e, h => by
+    cases ty with
+    | prim p => simp [prepassField] at h
+    | arr item isz len =>
+      cases len with
+      | some l => simp [prepassField] at h
+      | none =>
+        simp only [prepassField, newArrayLength] at h
+        cases h
+        exact (by decide : Err.type ≠ Err.oob)
+    | agg size fs =>
+      simp only [prepassField] at h
+      split at h
+      · cases hps : prepassDict fs kvs size with
+        | ok sub =>
+          rw [hps] at h
+          exact addVarsize_errOk h
+        | error e' =>
+          rw [hps] at h
+          cases h
+          exact prepassDict_errOk kvs fs size e hps
+      · cases h
+  | .int v, info, ty, cur, e, h => prepassField_errOk_leaf _ (by simp [Init.isNode]) info ty cur e h
+  | .bytes b, info, ty, cur, e, h => prepassField_errOk_leaf _ (by simp [Init.isNode]) info ty cur e h
+  | .cdata same data, info, ty, cur, e, h =>
+    prepassField_errOk_leaf _ (by simp [Init.isNode]) info ty cur e h
+  | .other, info, ty, cur, e, h => prepassField_errOk_leaf _ (by simp [Init.isNode]) info ty cur e h
+theorem prepassSeq_errOk : ∀ (items : Inits) (cf : Fields) (cur : Nat) (e : Err),
+    prepassSeq cf items cur = .error e → PreErrOk e
+  | .nil, cf, cur, e, h => by simp [prepassSeq] at h
+  | .cons x xs, cf, cur, e, h => by
+    simp only [prepassSeq] at h
+    cases hsk : cf.skipIgnored with
+    | nil =>
+      rw [hsk] at h
+      cases h
+      exact (by decide : Err.value ≠ Err.oob)
+    | cons info ty rest =>
+      rw [hsk] at h
+      simp only at h
+      cases hf : prepassField info ty x cur with
+      | ok cur' =>
+        rw [hf] at h
+        exact prepassSeq_errOk xs rest cur' e h
+      | error e' =>
+        rw [hf] at h
+        cases h
+        exact prepassField_errOk x info ty cur e hf
+theorem prepassDict_errOk : ∀ (kvs : KVs) (fs : Fields) (cur : Nat) (e : Err),
+    prepassDict fs kvs cur = .error e → PreErrOk e
+  | .nil, fs, cur, e, h => by simp [prepassDict] at h
+  | .cons k v rest, fs, cur, e, h => by
+    simp only [prepassDict] at h
+    cases hfi : fs.find k with
+    | none =>
+      rw [hfi] at h
+      cases h
+      exact (by decide : Err.key ≠ Err.oob)
+    | some p =>
+      obtain ⟨info, ty⟩ := p
+      rw [hfi] at h
+      simp only at h
+      cases hf : prepassField info ty v cur with
+      | ok cur' =>
+        rw [hf] at h
+        exact prepassDict_errOk rest fs cur' e h
+      | error e' =>
+        rw [hf] at h
+        cases h
+        exact prepassField_errOk v info ty cur e hf
+end
+
+theorem skipIgnored_head_not_ignored : ∀ (cf : Fields) (info : FieldInfo) (ty : Ty) (rest : Fields),
+    cf.skipIgnored = .cons info ty rest → info.ignore = false
+  | .nil, info, ty, rest, h => by simp [Fields.skipIgnored] at h
+  | .cons i t r, info, ty, rest, h => by
+    unfold Fields.skipIgnored at h
+    split at h
+    · exact skipIgnored_head_not_ignored r info ty rest h
+    · rename_i hi
+      simp only [Fields.cons.injEq] at h
+      rw [← h.1]
+      simpa using hi
+
+/-! ### the overflow test of `add_varsize_length` is exact -/
+
+theorem wrap64_lt (x : Int) : wrap64 x < (2:Int)^63 := by unfold wrap64; omega
+theorem wrap64_id {x : Int} (h0 : -(2:Int)^63 ≤ x) (h1 : x < (2:Int)^63) : wrap64 x = x := by
+  unfold wrap64; omega
+
+theorem addVarsize_exact (o isz n cur : Nat) (ho : o < 2^63) :
+    addVarsize o isz n cur =
+      if o + isz * n < 2^63 then .ok (if o + isz * n > cur then o + isz * n else cur)
+      else .error .overflow := by
+  by_cases hfit : o + isz * n < 2^63
+  · rw [if_pos hfit]
+    have hP : ((isz : Int) * (n : Int)) = ((isz * n : Nat) : Int) := by push_cast; rfl
+    have hw : wrap64 ((isz : Int) * (n : Int)) = ((isz * n : Nat) : Int) := by
+      rw [hP]; exact wrap64_id (by omega) (by omega)
+    have hs : wrap64 ((o : Int) + wrap64 ((isz : Int) * (n : Int))) = ((o + isz * n : Nat) : Int) := by
+      rw [hw, wrap64_id (by omega) (by omega)]; push_cast; rfl
+    unfold addVarsize
+    simp only [hs]
+    have h1 : ¬ (((o + isz * n : Nat) : Int) < 0) := by omega
+    have h3 : ¬ (isz ≠ 0 ∧ (((o + isz * n : Nat) : Int) - (o : Int)).tdiv (isz : Int) ≠ (n : Int)) := by
+      rintro ⟨hz, hne⟩
+      have : ((o + isz * n : Nat) : Int) - (o : Int) = (isz : Int) * (n : Int) := by push_cast; omega
+      rw [this, Int.mul_tdiv_cancel_left _ (by omega)] at hne
+      exact hne rfl
+    rw [if_neg h1, if_neg h3]
+    simp only [Int.toNat_natCast]
+  · rw [if_neg hfit]
+    cases h : addVarsize o isz n cur with
+    | error e => rw [addVarsize_err h]
+    | ok r =>
+      exfalso
+      unfold addVarsize at h
+      simp only at h
+      generalize hsz : wrap64 ((o : Int) + wrap64 ((isz : Int) * (n : Int))) = size at h
+      have hlt : size < (2:Int)^63 := by rw [← hsz]; exact wrap64_lt _
       split at h
       · cases h
-      · rename_i hdiv
-        simp only [ne_eq, Decidable.not_not] at hdiv
-        generalize hsz : wrap64 ((o : Int) + wrap64 ((isz : Int) * (n : Int))) = size at *
-        have hr : r = if size.toNat > cur then size.toNat else cur := by cases h; rfl
-        have key : (o : Int) + (isz : Int) * (n : Int) ≤ size := by
-          rcases Nat.eq_zero_or_pos n with hn | hn
-          · subst hn
-            simp only [Int.natCast_zero, Int.mul_zero] at hsz ⊢
-            unfold wrap64 at hsz
-            omega
-          · have hd : 0 < size - (o : Int) := by
-              by_cases h1 : 0 < size - (o:Int)
-              · exact h1
-              · have := tdiv_nonpos_of_nonpos (a := size - (o:Int)) (b := (isz : Int)) (by omega) (by omega)
-                omega
-            have := Int.mul_tdiv_self_le (x := size - (o : Int)) (k := (isz : Int)) (by omega)
-            rw [hdiv] at this
-            omega
-        have key2 : o + isz * n ≤ size.toNat := by
+      · split at h
+        · cases h
+        · rename_i hneg hdiv
+          have key := addVarsize_key ho hsz hdiv
           have : ((o + isz * n : Nat) : Int) ≤ size := by push_cast; exact key
           omega
-        subst hr
-        split <;> omega
+
+/-! ### lemmas used by Props/C20 -/
+
+theorem convert_length {m m' : Mem} {off : Nat} {ty : Ty} {fc : FieldCtx} {init : Init}
+    (h : convert m off ty fc init = .ok m') : m'.length = m.length := by
+  rw [convert_eq_exec] at h
+  exact execOps_length h
+
+/-- What `newp` returns when it succeeds on `T *`: a block of the computed size, produced by
+converting `init` into zeros. -/
+theorem newp_ptr_ok {limit : Nat} {ty : Ty} {init : Init} {o : Owned}
+    (h : newp limit true ty (some init) = .ok o) :
+    ∃ datasize, allocPtr ty (some init) = .ok (datasize, o.length) ∧
+      convert (zeros datasize) 0 ty .plain init = .ok o.data ∧ o.data.length = datasize := by
+  simp only [newp, if_true] at h
+  cases ha : allocPtr ty (some init) with
+  | error e => rw [ha] at h; cases h
+  | ok p =>
+    obtain ⟨datasize, length⟩ := p
+    rw [ha] at h
+    simp only at h
+    split at h
+    · cases h
+    · cases hc : convert (zeros datasize) 0 ty .plain init with
+      | error e => rw [hc] at h; cases h
+      | ok m =>
+        rw [hc] at h
+        cases h
+        exact ⟨datasize, rfl, hc, by rw [convert_length hc, zeros_length]⟩
+
+
+theorem allocArr_open_size {isz : Nat} {i : Init} {datasize : Nat} {length : Option Nat} {init' : Option Init}
+    (h : allocArr isz none (some i) = .ok (datasize, length, init')) :
+    ∃ n, length = some n ∧ datasize = n * isz := by
+  simp only [allocArr] at h
+  cases hn : newArrayLength i with
+  | error e => rw [hn] at h; cases h
+  | ok q =>
+    obtain ⟨n, wasInt⟩ := q
+    rw [hn] at h
+    simp only at h
+    generalize hd : wrap64 ((n : Int) * (isz : Int)) = d at h
+    split at h
+    · cases h
+    · rename_i hchk
+      simp only [Except.ok.injEq, Prod.mk.injEq] at h
+      refine ⟨n, h.2.1.symm, ?_⟩
+      rw [← h.1]
+      have hP : ((n : Int) * (isz : Int)) = ((n * isz : Nat) : Int) := by push_cast; rfl
+      rw [hP] at hd
+      have hle : d ≤ ((n * isz : Nat) : Int) := by rw [← hd]; unfold wrap64; omega
+      rcases Nat.eq_zero_or_pos n with hn0 | hn0
+      · subst hn0
+        simp only [Nat.zero_mul, Int.natCast_zero] at hd ⊢
+        unfold wrap64 at hd
+        omega
+      · have hdiv : d.tdiv (n : Int) = (isz : Int) := by
+          by_cases hq : d.tdiv (n : Int) = (isz : Int)
+          · exact hq
+          · exact absurd ⟨hn0, hq⟩ hchk
+        have hd0 : 0 ≤ d := by
+          by_cases h0 : 0 ≤ d
+          · exact h0
+          · have h1 := tdiv_nonpos_of_nonpos (a := d) (b := (n : Int)) (by omega) (by omega)
+            have hz : isz = 0 := by omega
+            subst hz
+            simp only [Nat.mul_zero, Int.natCast_zero] at hd
+            unfold wrap64 at hd
+            omega
+        have := Int.mul_tdiv_self_le (x := d) (k := (n : Int)) hd0
+        rw [hdiv] at this
+        have h2 : ((n * isz : Nat) : Int) ≤ d := by push_cast; exact this
+        omega
+
+
+theorem skipIgnored_allIgnored : ∀ fs : Fields, Fields.allIgnored fs = true → fs.skipIgnored = .nil
+  | .nil, _ => rfl
+  | .cons info ty rest, h => by
+    simp only [Fields.allIgnored, Bool.and_eq_true] at h
+    simp only [Fields.skipIgnored, h.1, if_true]
+    exact skipIgnored_allIgnored rest h.2
+
+
+theorem ctorCount_skipIgnored : ∀ fs : Fields, Fields.ctorCount fs.skipIgnored = Fields.ctorCount fs
+  | .nil => rfl
+  | .cons info ty rest => by
+    unfold Fields.skipIgnored
+    split
+    · rename_i h
+      simp only [Fields.ctorCount, h, if_true, Nat.zero_add]
+      exact ctorCount_skipIgnored rest
+    · rfl
+
+theorem convertSeq_too_many : ∀ (items : Inits) (m : Mem) (off : Nat) (cf : Fields),
+    Fields.ctorCount cf < items.length → ∀ m', convertSeq m off cf items ≠ .ok m'
+  | .nil, m, off, cf, h, m' => by simp [Inits.length] at h
+  | .cons x xs, m, off, cf, h, m' => by
+    simp only [convertSeq]
+    have hc := ctorCount_skipIgnored cf
+    cases hsk : cf.skipIgnored with
+    | nil => simp
+    | cons info ty rest =>
+      simp only
+      cases hcv : convert m (off + info.off) ty (.field info.bits) x with
+      | error e => simp
+      | ok m1 =>
+        simp only
+        refine convertSeq_too_many xs m1 off rest ?_ m'
+        have hni : info.ignore = false := by
+          cases cf with
+          | nil => simp [Fields.skipIgnored] at hsk
+          | cons i t r =>
+            -- the head of `skipIgnored` is never an ignored field
+            exact skipIgnored_head_not_ignored _ _ _ _ hsk
+        rw [hsk] at hc
+        simp only [Fields.ctorCount, hni, Bool.false_eq_true, if_false] at hc
+        simp only [Inits.length] at h
+        omega
+
+theorem prepassSeq_too_many : ∀ (items : Inits) (cf : Fields) (cur : Nat),
+    Fields.ctorCount cf < items.length → ∀ r, prepassSeq cf items cur ≠ .ok r
+  | .nil, cf, cur, h, r => by simp [Inits.length] at h
+  | .cons x xs, cf, cur, h, r => by
+    simp only [prepassSeq]
+    have hc := ctorCount_skipIgnored cf
+    cases hsk : cf.skipIgnored with
+    | nil => simp
+    | cons info ty rest =>
+      simp only
+      cases hcv : prepassField info ty x cur with
+      | error e => simp
+      | ok c1 =>
+        simp only
+        refine prepassSeq_too_many xs rest c1 ?_ r
+        have hni : info.ignore = false := skipIgnored_head_not_ignored _ _ _ _ hsk
+        rw [hsk] at hc
+        simp only [Fields.ctorCount, hni, Bool.false_eq_true, if_false] at hc
+        simp only [Inits.length] at h
+        omega
+
 
 end CffiVerif.Init
